@@ -154,7 +154,7 @@ def dce_tie(ctx, progs, res):
 OPAQUE = re.compile(r'\(EOther "(range|slice|struct|cast)"\)')
 
 
-def unused_tie(ctx, progs, res, key="pass:unused", fid="unused_fid", label="unused_model_tie", mod="UnusedObs", what="unused-variable", skip_other=False):
+def unused_tie(ctx, progs, res, key="pass:unused", fid="unused_fid", label="unused_model_tie", mod="UnusedObs", what="unused-variable", skip_other=False, skip_float=False):
     """Fidelity of Model/Opt/Unused.v: the model pass, evaluated inside Coq on the typed AST the real
     front end produced, must give exactly the AST the real UnusedVarEliminator produces from it.
     Skipped (counted): programs with a `pub let` (not represented in Model/Lang.v) and programs
@@ -173,6 +173,9 @@ def unused_tie(ctx, progs, res, key="pass:unused", fid="unused_fid", label="unus
             continue
         if OPAQUE.search(a["in"]) or (skip_other and "(EOther " in a["in"]):
             skipped["opaque-subexpression"] += 1
+            continue
+        if skip_float and "(EFlt " in a["in"]:
+            skipped["float-literal"] += 1
             continue
         cases.append(f"{a['in']} {out}")
         idx.append(i)
@@ -201,7 +204,7 @@ def run(ctx):
     proved = ctx.prove("C01", extracted=["OptConsts", "ValueConsts", "Opcodes"])
     if ctx.tier == "thorough" and proved:
         ctx.coqchk("C01")
-    ok, out = vlib.coq_make(["Model/EvalObs.vo", "Model/Opt/FoldObs.vo", "Model/Opt/DceObs.vo", "Model/Opt/UnusedObs.vo", "Model/Opt/GlobalPropObs.vo"])
+    ok, out = vlib.coq_make(["Model/EvalObs.vo", "Model/Opt/FoldObs.vo", "Model/Opt/DceObs.vo", "Model/Opt/UnusedObs.vo", "Model/Opt/GlobalPropObs.vo", "Model/Opt/LocalPropObs.vo"])
     if not ok:
         ctx.broken.append("coq: model files for the C01 ties do not build")
         ctx.log(out[-2000:])
@@ -217,7 +220,7 @@ def run(ctx):
     rp = c02.replay_program(ctx)
     if rp is not None:
         progs, feats = [rp], [["replay"]]
-    res = c02.run_stream(ctx, progs, passes="dce,unused,unused-open,globalprop,globalprop-open")
+    res = c02.run_stream(ctx, progs, passes="dce,unused,unused-open,globalprop,globalprop-open,localprop@nogroup,localprop-open@nogroup,fold@nogroup")
     if res is None:
         return
     dce_tie(ctx, progs, res)
@@ -225,6 +228,12 @@ def run(ctx):
     unused_tie(ctx, progs, res, key="pass:unused-open", fid="unused_open_fid", label="unused_session_unit_model_tie")
     unused_tie(ctx, progs, res, key="pass:globalprop", fid="gprop_fid", label="globalprop_model_tie", mod="GlobalPropObs",
                what="global-constant-propagation", skip_other=True)
+    unused_tie(ctx, progs, res, key="pass:localprop@nogroup", fid="lprop_fid", label="localprop_model_tie", mod="LocalPropObs",
+               what="local-constant-propagation", skip_other=True, skip_float=True)
+    unused_tie(ctx, progs, res, key="pass:localprop-open@nogroup", fid="lprop_open_fid", label="localprop_session_unit_model_tie", mod="LocalPropObs",
+               what="local-constant-propagation", skip_other=True, skip_float=True)
+    unused_tie(ctx, progs, res, key="pass:fold@nogroup", fid="foldpass_fid", label="fold_model_tie", mod="LocalPropObs",
+               what="constant-folding", skip_other=True, skip_float=True)
     unused_tie(ctx, progs, res, key="pass:globalprop-open", fid="gprop_open_fid", label="globalprop_session_unit_model_tie", mod="GlobalPropObs",
                what="global-constant-propagation", skip_other=True)
     cases, idx = [], []
